@@ -48,6 +48,9 @@ pub fn argv0_forms() -> Vec<Tok> {
         b"--help".to_vec(),
         b"a=b".to_vec(),
         b"../rel/prog.exe".to_vec(),
+        b"cargo-app".to_vec(),
+        b"/usr/libexec/cargo-cmd".to_vec(),
+        b"cmd".to_vec(),
     ]
 }
 
@@ -117,6 +120,20 @@ pub fn gen_case(seed: u64, run: u64, faults: bool, real_every: u64) -> Case {
             _ => argv = gen::base_sentence(&mut r, &opts, true),
         }
         argv.truncate(12);
+        if r.chance(1, 12) {
+            // an argument that repeats the program's own name (multicall binaries, `cargo-x x`)
+            let base: Vec<u8> = match a0.iter().rposition(|b| *b == b'/') {
+                Some(ix) => a0[ix + 1..].to_vec(),
+                None => a0.clone(),
+            };
+            let word = if r.chance(1, 4) {
+                a0.clone()
+            } else {
+                base
+            };
+            let at = if r.chance(2, 3) { 0 } else { r.below(argv.len() + 1) };
+            argv.insert(at, word);
+        }
         let mut full = Vec::new();
         if !no_argv0 {
             full.push(a0);
